@@ -410,6 +410,8 @@ func restartRunCase(id string, in hInput, useLevelDB bool, maxCopies int, r *Rng
 				nh.contracts = append([]common.Address{}, l1.h.contracts...)
 				nh.vest = append([]sdk.AccAddress{}, l1.h.vest...)
 				nh.vestKey = append([]int{}, l1.h.vestKey...)
+				nh.small = append([]common.Address{}, l1.h.small...)
+				nh.planned = append([]common.Address{}, l1.h.planned...)
 				nh.liquid = append([]string{}, l1.h.liquid...)
 				nh.coins = append([]string{}, l1.h.coins...)
 				nh.slots = map[common.Address]map[uint64]bool{}
